@@ -119,7 +119,8 @@ def children(t, static_syms=(), path=""):
 # ---------------------------------------------------------------- AST-level kinds (math.* vs jax.numpy.* is kept)
 import ast as _ast
 
-_STATIC_CALLS = {"float", "int", "len", "max", "min", "abs", "round", "tuple", "bool", "str", "sum", "sorted", "range"}
+_STATIC_CALLS = {"float", "int", "len", "bool", "str", "range", "round"}
+_CONTAINER_CALLS = {"tuple", "list", "sorted", "reversed", "max", "min", "abs", "sum"}  # kind of what they are given
 _ARRAY_ROOTS = ("jnp.", "jax.", "np.", "numpy.", "jr.", "lax.", "jsp.")
 
 
@@ -143,6 +144,12 @@ def ast_kind(node, names: dict):
             return "static"  # returns a Python number / tuple whatever it is given
         if f.startswith(_ARRAY_ROOTS) or f == "arraylike_to_array":
             return "array"
+        if f in _CONTAINER_CALLS:
+            ks = [ast_kind(a, names) for a in node.args]
+            if isinstance(node.args[0], (_ast.GeneratorExp, _ast.ListComp)) if node.args else False:
+                ks = [ast_kind(node.args[0].elt, dict(names, **{n.id: ast_kind(g.iter, names) for g in node.args[0].generators
+                                                                for n in _ast.walk(g.target) if isinstance(n, _ast.Name)}))]
+            return _join(ks) if ks else "static"
         if isinstance(node.func, _ast.Attribute) and node.func.attr == "item":
             return "static"
         return "unknown"
